@@ -345,7 +345,7 @@ pub fn program(rng: &mut Rng, luau: bool) -> String {
 }
 
 pub fn n_items(w: &Work, ctx: &Ctx) -> usize {
-    w.corpus.len() + if ctx.quick() { 1500 } else { 30000 } + PINNED.len()
+    w.corpus.len() + if ctx.quick() { 1500 } else { 120000 } + PINNED.len()
 }
 
 const PINNED: [&str; 10] = [
